@@ -7,6 +7,7 @@ package engine
 
 import (
 	"fmt"
+	"go/token"
 	"go/types"
 	"sort"
 	"strings"
@@ -62,10 +63,16 @@ type OpEngine struct {
 	Funcs       map[string]bool
 	Closures    map[string]bool
 
+	deep         bool
+	curDims      []sym.Poly
+	baseline     int  // cells with id <= baseline existed before the call under analysis
+	watch        bool // report stores to pre-existing cells
 	curMethod    string
 	curExpanding bool
 	// gradFnCalls counts applications of backward rules (closures of package gradtrack with the chainGradFunc signature)
 	gradFnCalls int
+	// AllowStore exempts legitimate writers (set by drivers: the walk's context updates, SGD's pointer, counters)
+	AllowStore func(c *interp.Cell, fn *ssa.Function) bool
 	// Checked counts the obligations performed, by rule|construct|what
 	Checked map[string]int
 	// leaf value ranges for the A3 (finiteness) obligations of the current instance, by role
@@ -77,7 +84,34 @@ type OpEngine struct {
 func NewOpEngine(p *core.Program, a *spec.Anchors) *OpEngine {
 	e := &OpEngine{P: p, A: a, Funcs: map[string]bool{}, Closures: map[string]bool{}, Checked: map[string]int{}}
 	e.M = interp.NewMachine(p.Prog)
-	e.M.Hooks = interp.Hooks{Enter: e.enter, Static: e.static, Invoke: e.invoke}
+	e.M.Hooks = interp.Hooks{Enter: e.enter, Static: e.static, Invoke: e.invoke, External: e.external}
+	sym.PositiveSym = func(name string) bool {
+		for _, c := range e.M.Base {
+			// c.P = k - atom <= 0 with k >= 1
+			if c.Op != sym.LE {
+				continue
+			}
+			if k := c.P.Coef(""); k >= 1 && c.P.Coef(name) == -1 && len(c.P.Monomials()) == 2 {
+				return true
+			}
+		}
+		return false
+	}
+	e.M.OnStore = func(c *interp.Cell, pos token.Pos, fn *ssa.Function) {
+		if !e.watch || c.ID > e.baseline {
+			return
+		}
+		fk := "Tensor.ResetGradContext (interface call)"
+		if fn != nil {
+			fk = core.FuncKey(fn)
+		}
+		e.did("C10.mutation", fk)
+		if e.AllowStore != nil && e.AllowStore(c, fn) {
+			return
+		}
+		e.find("C10.mutation", fk, "writes-existing-object", e.P.Pos(pos),
+			fmt.Sprintf("writes memory that existed before the call (%s): operands, caller-owned slices and earlier results are immutable", c.Site))
+	}
 	return e
 }
 
@@ -331,6 +365,44 @@ func splitResult(v interp.Value) (t interp.Value, isErr bool) {
 	return v, false
 }
 
+// external models math.IsNaN / math.IsInf through the interval domain: a value whose interval is finite is
+// neither; otherwise the test forks.
+func (e *OpEngine) external(m *interp.Machine, fn *ssa.Function, args []interp.Value) (interp.Value, bool) {
+	name := fn.String()
+	if name != "math.IsNaN" && name != "math.IsInf" {
+		return nil, false
+	}
+	x, ok := args[0].(interp.FloatV)
+	if !ok {
+		return nil, false
+	}
+	leaf := func(n string) spec.Ival {
+		for _, ti := range e.W.Info {
+			if ti.Name == n {
+				return ti.Rng
+			}
+		}
+		return spec.Top()
+	}
+	symr := func(n string) spec.Ival {
+		if sym.PositiveSym != nil && sym.PositiveSym(n) {
+			return spec.Rng(1, 1e9)
+		}
+		return spec.Rng(-1e3, 1e3)
+	}
+	iv := spec.IvalOfExpr(x.E, leaf, symr)
+	if name == "math.IsNaN" {
+		if !iv.NaN {
+			return interp.BoolC(false), true
+		}
+		return interp.BoolV{C: sym.RealGT(sym.FnE("isnan", x.E), sym.Expr{})}, true
+	}
+	if iv.IsFinite() {
+		return interp.BoolC(false), true
+	}
+	return interp.BoolV{C: sym.RealGT(sym.FnE("isinf", x.E), sym.Expr{})}, true
+}
+
 func (e *OpEngine) invoke(m *interp.Machine, recv interp.Value, method *types.Func, args []interp.Value) (interp.Value, bool) {
 	if !e.W.TensorMethod(method) {
 		return nil, false
@@ -338,6 +410,14 @@ func (e *OpEngine) invoke(m *interp.Machine, recv interp.Value, method *types.Fu
 	t, ok := e.W.AsTensor(recv)
 	if !ok {
 		return nil, false
+	}
+	if e.deep {
+		// the real method (validators, data-layer summary, gradient-context attachment), shadowed by the summary
+		if fn := e.M.Prog.LookupMethod(e.A.CPUPtr, method.Pkg(), method.Name()); fn != nil {
+			if _, _, isOp := e.publicOp(fn); isOp {
+				return m.Call(fn, append([]interp.Value{t}, args...), nil), true
+			}
+		}
 	}
 	return e.W.Method(method.Name(), t, args)
 }
